@@ -19,6 +19,7 @@ modulo the period as a numerical statement."""
 import flow
 import gate
 import pair
+import txn
 import valueflow
 from pair import DT
 
@@ -88,7 +89,7 @@ def _topokeep(ctx, cfg, prog, mod):
             continue
         detail = 'outcomes (exit class, global_topology changed): %s' % sorted(summ)
         if changed:
-            r = eng.own_root(q, i, set()) if ('fail', 1) in summ else None
+            r = eng.own_root(q, i, set()) if txn.dirty_fail(summ) else None
             detail += ('; global_topology can be changed by this operation: later insertions would no longer be wrapped '
                        '(or be wrapped differently)')
             if r:
